@@ -21,7 +21,7 @@ RULE = ("ProgGen programs over a 3-letter type alphabet (so equal types recur as
         "flag and recursively exactly its direct children in emission order; the same tree as the parser's WrittenAction at that "
         "task_level; descendants()/type_tree() == pre-order walk; LoggedMessage.of_type == exactly the messages of the type in order; "
         "assertHasAction/assertHasMessage succeed iff the FIRST entry has the expected outcome and a superset of the expected fields "
-        "(expected dicts generated as true subsets, with one wrong / missing pair, and as the fields of a LATER entry of the same type). non-trivial = a type occurring at >=2 depths or "
+        "(expected dicts generated as true subsets, with one wrong / missing pair, and as the fields of a LATER entry of the same type). Some batches run in an interpreter started with -O. non-trivial = a type occurring at >=2 depths or "
         "nested inside itself; distinct by program shape")
 ASSUMPTIONS = ["all actions are finished before the helpers are used (of_type documents ValueError otherwise)"]
 BATCH = 30
